@@ -12,4 +12,6 @@ import Rpki.Props.C03
 #print axioms Rpki.C03.containsBlock_iff
 #print axioms Rpki.C03.intersectsBlock_iff
 #print axioms Rpki.C03.asnCount_spec
-#print axioms Rpki.C03.intoPrefix_sound_partial
+#print axioms Rpki.C03.intoPrefix_sound
+#print axioms Rpki.C03.intoPrefix_complete
+#print axioms Rpki.C03.toPrefixes_tiles
